@@ -41,6 +41,8 @@ def coq_query(q):
     if t[0] == "QProg":
         k, l = t[1].split(None, 1)
         return f"QProg {k} {l}%N"
+    if t[0] == "QFirst":
+        return f"QFirst {t[1]}%N"
     if t[0] == "QRecycle":
         return f"QRecycle {t[1]}%N"
     if t[0] == "QNat":
@@ -172,6 +174,32 @@ def nat_oracle(cs, ps, v):
             return ("native:" + nm.split("(")[0], f"{nm} on {s!r} (pad {pad!r}) gives {g!r}, by characters it is {w.encode('utf-8')!r}")
     if tail != ints:
         return ("native:byte_at-or-find", f"byte_at at -1, 0, len-1, len and find of 4 needles on {s!r} give {tail}, expected {ints}")
+    return None
+
+
+def first_oracle(cs, v):
+    """Functions whose loop body ends in `return`: the first item (or the code after the loop when there is none)."""
+    if v[0] in (-9, -8):
+        return ("first-run-failed:%d:%d" % (v[0], v[1]), f"program failed / output unparsable: {v[:2]}")
+    none = b"<none>"
+    first = chr(cs[0]).encode("utf-8") if cs else none
+    try:
+        pos, got = 0, []
+        for _ in range(3):
+            it, pos = parse_framed(v, pos)
+            got.append(it)
+        ints = v[pos:]
+    except (ValueError, IndexError) as e:
+        return ("first-obs-unparsable", f"observation vector malformed: {e}")
+    if got[0] != first:
+        return ("loop-return:first-item", f"`for c in u {{ return c }} return \"<none>\"` gives {got[0]!r}, the first item is {first!r}")
+    if got[1] != first:
+        return ("loop-return:first-index", f"`for jx in 0..u.char_len() {{ return u[jx] }} return \"<none>\"` gives {got[1]!r}, expected {first!r}")
+    if got[2] != none:
+        return ("loop-return:empty-string", f"the code after a for-each over the EMPTY string did not run: got {got[2]!r}")
+    want = [1 if not cs else 0, 1, len(cs), 0]
+    if ints != want:
+        return ("loop-return:after-loop", f"yields_nothing(s), yields_nothing(\"\"), count(s), count(\"\") = {ints}, expected {want}")
     return None
 
 
@@ -310,7 +338,7 @@ def run(ctx):
             ctx.violation("c20:harness-crash", "hx_utf8 crashed (panic outside run_program?)",
                           {"profile": prof, "output_tail": out[-2000:]})
             return
-        cases, meta, srcs, nat_srcs, rec_srcs = [], [], {}, {}, {}
+        cases, meta, srcs, nat_srcs, rec_srcs, first_srcs = [], [], {}, {}, {}, {}
         for line in out.split("\n"):
             p = line.split("\t")
             if p[0] == "G":
@@ -319,7 +347,9 @@ def run(ctx):
                 nat_srcs[p[1]] = p[3]
             elif p[0] == "I":
                 rec_srcs[p[1]] = p[3]
-            elif p[0] in ("S", "P", "N", "R") and len(p) == 4:
+            elif p[0] == "J":
+                first_srcs[p[1]] = p[3]
+            elif p[0] in ("S", "P", "N", "R", "F") and len(p) == 4:
                 cases.append((coq_query(p[2]), zlist(p[3].split())))
                 meta.append((p[0], p[1], p[2], [int(x) for x in p[3].split()]))
         total += len(cases) + ncorp
@@ -333,6 +363,18 @@ def run(ctx):
                 if d:
                     nd += 1
                     ctx.violation("c20:std:" + m, d, {"query": q, "observed": v, "profile": prof})
+                continue
+            if tag == "F":
+                cs = scalars_of(q)
+                cid, form, typed, emp, opt = m.split(":")
+                dist["loop_body_ends_in_return_runs"] = dist.get("loop_body_ends_in_return_runs", 0) + 1
+                distinct.add(("first", tuple(cs), form, typed, emp, opt))
+                d = first_oracle(cs, v)
+                if d:
+                    nd += 1
+                    if nd <= 5:
+                        ctx.violation(f"c20:{d[0]}:{opt}", f"{d[1]} (string {''.join(map(chr, cs))!r}, {form}, {typed}, {emp}, -{opt})",
+                                      {"scalars": cs, "form": form, "opt": opt, "observed": v[:60], "program": vlib_unesc(first_srcs.get(cid, "")), "profile": prof})
                 continue
             if tag == "R":
                 cs = scalars_of(q)
@@ -407,6 +449,10 @@ def run(ctx):
                                          "model": (m or "")[:600]} for i, m in zip(bad, mo)]
             for i in bad[:3]:
                 tag, m, q, v = meta[i]
+                if tag == "F":
+                    cid = m.split(":")[0]
+                    ctx.violation("c20:model-mismatch:loop-return:" + m.split(":")[-1], f"functions whose loop body ends in `return` differ from the model's prediction ({m})",
+                                  {"case": m, "query": q[:300], "observed": v[:60], "program": vlib_unesc(first_srcs.get(cid, "")), "profile": prof})
                 if tag == "R":
                     cid = m.split(":")[0]
                     ctx.violation("c20:model-mismatch:recycle:" + m.split(":")[-1],
